@@ -937,3 +937,37 @@ Check lookup_offset_id_scan. Check lookup_offset_id_correct. Check lookup_offset
 Check lookup_offset_id_unsearched. Check dwo_name_spec. Check dwo_name_after_null. Check unit_ranges_spec.
 Check unit_ranges_of_list. Check unit_ranges_of_index. Check unit_ranges_of_low_high. Check unit_ranges_of_nothing.
 Check parsed_header_arith. Check unit_glue_no_panic_bytes.
+
+(* the usual producer order — DW_AT_low_pc (address) and DW_AT_high_pc before DW_AT_ranges — gives the same: what
+   was collected from low_pc / high_pc is irrelevant once DW_AT_ranges designates a list (`glue_benign`: any
+   attribute other than ranges, an indexed low_pc or an ill-classed low_pc / high_pc) *)
+Theorem unit_ranges_of_list_after_low_pc : forall dbg d u root pre p post o,
+  root_dfs dbg (un_header u) (un_abbrevs u) = Ok root ->
+  d_attrs root = pre ++ p :: post -> forallb glue_benign pre = true ->
+  nm p = Attr.DW_AT_ranges -> val p = VRangeListsRef o ->
+  let x := uctx_of d u in
+  unit_ranges_all dbg d u =
+  ListsRd.ranges_all dbg (ListsRd.u_cfg x) (ListsRd.u_lctx x) (dw_ranges d) (dw_rnglists d)
+    (if dw_dwo d && (version (u_enc (un_header u)) <? 5) then (o + un_rnglists_base u) mod two64 else o)
+    (un_low_pc u).
+Proof. exact unit_ranges_list_after_low_pc. Qed.
+
+Theorem unit_ranges_of_index_after_low_pc : forall dbg d u root pre p post i off,
+  root_dfs dbg (un_header u) (un_abbrevs u) = Ok root ->
+  d_attrs root = pre ++ p :: post -> forallb glue_benign pre = true ->
+  nm p = Attr.DW_AT_ranges -> val p = VDebugRngListsIndex i ->
+  N.of_nat (length (dw_rnglists d)) < two64 ->
+  offset_table (dw_be d) (fmt64 (u_enc (un_header u))) (dw_rnglists d) (un_rnglists_base u) i = Some off ->
+  off < two64 ->
+  let x := uctx_of d u in
+  unit_ranges_all dbg d u =
+  ListsRd.ranges_all dbg (ListsRd.u_cfg x) (ListsRd.u_lctx x) (dw_ranges d) (dw_rnglists d) off (un_low_pc u).
+Proof. exact unit_ranges_listx_after_low_pc. Qed.
+
+Example ex_glue_benign :
+  forallb glue_benign [(mkSpec DW_AT_name 8 0%Z, VString [x61]%byte); (mkSpec DW_AT_low_pc 1 0%Z, VAddr 4096);
+                       (mkSpec DW_AT_high_pc 6 0%Z, VData4 16)] = true /\
+  glue_benign (mkSpec DW_AT_low_pc 27 0%Z, VDebugAddrIndex 1) = false.
+Proof. vm_compute. split; reflexivity. Qed.
+
+Check unit_ranges_of_list_after_low_pc. Check unit_ranges_of_index_after_low_pc.
